@@ -356,6 +356,9 @@ func runInjection(p c05Proto, s injSpec) injResult {
 	if s.Kind == "junk" {
 		return runJunk(p, s)
 	}
+	if s.Kind == "commit-arity" {
+		return runCommitArity(p, s)
+	}
 	rng := rand.New(rand.NewSource(s.Seed))
 	net := p.build(rand.New(rand.NewSource(11)))
 	res := injResult{Spec: s}
